@@ -303,6 +303,9 @@ def obligations(tier):
         obs.append(ob_tg_zc("mixed", 300))
         obs.append(ob_tg_zc_flags(300))
         obs.append(ob_zc_after_insert(300))
+        from harness import C16
+
+        obs.append(C16.ob_query(2, 8, 200))  # file-backed recordings: the search reads its windows through QueryWav
         obs.append(ob_splice(False, False, 300))
         obs.append(ob_splice(True, False, 300))
         obs.append(ob_splice(False, True, 300, fixed=(3, 8)))
